@@ -9,9 +9,11 @@
                                   otherwise passes the accessible ids to the query)
      pkg/server/commands/list_stores.go + pkg/storage/memory/memory.go:847 (sqlite.go:1091)
                                   the IDs filter: `len(options.IDs) > 0`, i.e. empty = no filter
-   Definitions only.  The API-method -> relation table, the relation constants, the module limit
-   and the per-handler call order are NOT written here: they are regenerated from the Go source
-   on every run (Generated/C26Tables.v, tool harness/cmd/gen_c26).
+   Definitions only, self-contained (the extracted oracle depends on this file alone).  The
+   API-method -> relation switch, the relation constants and the module limit are transcribed
+   here; Generated/C26Tables.v (tool harness/cmd/gen_c26) re-reads them and the call order of
+   every RPC handler from the Go source on every run, and Sec/AuthzProofs.v proves that the
+   transcription and the pinned handler lists below agree with the regenerated facts.
 
    What is NOT modelled (enters as a function argument, universally quantified in the theorems):
    - the answer of the access-control store: [g client relation object] is the result of the
@@ -21,9 +23,108 @@
      access-control store (None = error);
    - the typesystem of the target store: a write request arrives as the list of per-tuple module
      lookups (type missing / relation missing / module name, [] = no module). *)
-From OFGA Require Import Base.Bytes Generated.C26Tables.
-From Coq Require Import String Ascii.
+From OFGA Require Import Base.Bytes.
 Open Scope N_scope.
+
+(* internal/utils/apimethod: the API methods, in source order *)
+Inductive api_method :=
+| M_ReadAuthorizationModel | M_ReadAuthorizationModels | M_Read | M_Write | M_ListObjects
+| M_StreamedListObjects | M_Check | M_BatchCheck | M_ListUsers | M_WriteAssertions
+| M_ReadAssertions | M_WriteAuthorizationModel | M_ListStores | M_CreateStore | M_GetStore
+| M_DeleteStore | M_Expand | M_ReadChanges.
+
+Definition all_api_methods : list api_method :=
+  [M_ReadAuthorizationModel; M_ReadAuthorizationModels; M_Read; M_Write; M_ListObjects;
+   M_StreamedListObjects; M_Check; M_BatchCheck; M_ListUsers; M_WriteAssertions;
+   M_ReadAssertions; M_WriteAuthorizationModel; M_ListStores; M_CreateStore; M_GetStore;
+   M_DeleteStore; M_Expand; M_ReadChanges].
+
+(* the string value of each constant ("Read", "Write", ...) as bytes *)
+Definition api_method_bytes (m : api_method) : bytes :=
+  match m with
+  | M_ReadAuthorizationModel => [82; 101; 97; 100; 65; 117; 116; 104; 111; 114; 105; 122; 97; 116; 105; 111; 110; 77; 111; 100; 101; 108]
+  | M_ReadAuthorizationModels => [82; 101; 97; 100; 65; 117; 116; 104; 111; 114; 105; 122; 97; 116; 105; 111; 110; 77; 111; 100; 101; 108; 115]
+  | M_Read => [82; 101; 97; 100]
+  | M_Write => [87; 114; 105; 116; 101]
+  | M_ListObjects => [76; 105; 115; 116; 79; 98; 106; 101; 99; 116; 115]
+  | M_StreamedListObjects => [83; 116; 114; 101; 97; 109; 101; 100; 76; 105; 115; 116; 79; 98; 106; 101; 99; 116; 115]
+  | M_Check => [67; 104; 101; 99; 107]
+  | M_BatchCheck => [66; 97; 116; 99; 104; 67; 104; 101; 99; 107]
+  | M_ListUsers => [76; 105; 115; 116; 85; 115; 101; 114; 115]
+  | M_WriteAssertions => [87; 114; 105; 116; 101; 65; 115; 115; 101; 114; 116; 105; 111; 110; 115]
+  | M_ReadAssertions => [82; 101; 97; 100; 65; 115; 115; 101; 114; 116; 105; 111; 110; 115]
+  | M_WriteAuthorizationModel => [87; 114; 105; 116; 101; 65; 117; 116; 104; 111; 114; 105; 122; 97; 116; 105; 111; 110; 77; 111; 100; 101; 108]
+  | M_ListStores => [76; 105; 115; 116; 83; 116; 111; 114; 101; 115]
+  | M_CreateStore => [67; 114; 101; 97; 116; 101; 83; 116; 111; 114; 101]
+  | M_GetStore => [71; 101; 116; 83; 116; 111; 114; 101]
+  | M_DeleteStore => [68; 101; 108; 101; 116; 101; 83; 116; 111; 114; 101]
+  | M_Expand => [69; 120; 112; 97; 110; 100]
+  | M_ReadChanges => [82; 101; 97; 100; 67; 104; 97; 110; 103; 101; 115]
+  end.
+
+(* internal/authz/authz.go: the CanCall* relation constants, in source order *)
+Inductive relation :=
+| R_CanCallReadAuthorizationModels | R_CanCallRead | R_CanCallWrite | R_CanCallListObjects
+| R_CanCallCheck | R_CanCallListUsers | R_CanCallWriteAssertions | R_CanCallReadAssertions
+| R_CanCallWriteAuthorizationModels | R_CanCallListStores | R_CanCallCreateStore
+| R_CanCallGetStore | R_CanCallDeleteStore | R_CanCallExpand | R_CanCallReadChanges.
+
+Definition all_relations : list relation :=
+  [R_CanCallReadAuthorizationModels; R_CanCallRead; R_CanCallWrite; R_CanCallListObjects;
+   R_CanCallCheck; R_CanCallListUsers; R_CanCallWriteAssertions; R_CanCallReadAssertions;
+   R_CanCallWriteAuthorizationModels; R_CanCallListStores; R_CanCallCreateStore;
+   R_CanCallGetStore; R_CanCallDeleteStore; R_CanCallExpand; R_CanCallReadChanges].
+
+Definition s_can_call_ : bytes := [99; 97; 110; 95; 99; 97; 108; 108; 95].
+
+(* "can_call_" ++ suffix *)
+Definition relation_bytes (r : relation) : bytes :=
+  s_can_call_ ++
+  match r with
+  | R_CanCallReadAuthorizationModels => [114; 101; 97; 100; 95; 97; 117; 116; 104; 111; 114; 105; 122; 97; 116; 105; 111; 110; 95; 109; 111; 100; 101; 108; 115]
+  | R_CanCallRead => [114; 101; 97; 100]
+  | R_CanCallWrite => [119; 114; 105; 116; 101]
+  | R_CanCallListObjects => [108; 105; 115; 116; 95; 111; 98; 106; 101; 99; 116; 115]
+  | R_CanCallCheck => [99; 104; 101; 99; 107]
+  | R_CanCallListUsers => [108; 105; 115; 116; 95; 117; 115; 101; 114; 115]
+  | R_CanCallWriteAssertions => [119; 114; 105; 116; 101; 95; 97; 115; 115; 101; 114; 116; 105; 111; 110; 115]
+  | R_CanCallReadAssertions => [114; 101; 97; 100; 95; 97; 115; 115; 101; 114; 116; 105; 111; 110; 115]
+  | R_CanCallWriteAuthorizationModels => [119; 114; 105; 116; 101; 95; 97; 117; 116; 104; 111; 114; 105; 122; 97; 116; 105; 111; 110; 95; 109; 111; 100; 101; 108; 115]
+  | R_CanCallListStores => [108; 105; 115; 116; 95; 115; 116; 111; 114; 101; 115]
+  | R_CanCallCreateStore => [99; 114; 101; 97; 116; 101; 95; 115; 116; 111; 114; 101; 115]
+  | R_CanCallGetStore => [103; 101; 116; 95; 115; 116; 111; 114; 101]
+  | R_CanCallDeleteStore => [100; 101; 108; 101; 116; 101; 95; 115; 116; 111; 114; 101]
+  | R_CanCallExpand => [101; 120; 112; 97; 110; 100]
+  | R_CanCallReadChanges => [114; 101; 97; 100; 95; 99; 104; 97; 110; 103; 101; 115]
+  end.
+
+(* Authorizer.getRelation: the switch, transcribed (None = the default clause: error).
+   AuthzProofs.relation_table_matches_source compares it, name by name, with the switch that
+   gen_c26 reads from the source on every run. *)
+Definition relation_of (m : api_method) : option relation :=
+  match m with
+  | M_ReadAuthorizationModel => Some R_CanCallReadAuthorizationModels
+  | M_ReadAuthorizationModels => Some R_CanCallReadAuthorizationModels
+  | M_Read => Some R_CanCallRead
+  | M_Write => Some R_CanCallWrite
+  | M_ListObjects => Some R_CanCallListObjects
+  | M_StreamedListObjects => Some R_CanCallListObjects
+  | M_Check => Some R_CanCallCheck
+  | M_BatchCheck => Some R_CanCallCheck
+  | M_ListUsers => Some R_CanCallListUsers
+  | M_WriteAssertions => Some R_CanCallWriteAssertions
+  | M_ReadAssertions => Some R_CanCallReadAssertions
+  | M_WriteAuthorizationModel => Some R_CanCallWriteAuthorizationModels
+  | M_ListStores => Some R_CanCallListStores
+  | M_CreateStore => Some R_CanCallCreateStore
+  | M_GetStore => Some R_CanCallGetStore
+  | M_DeleteStore => Some R_CanCallDeleteStore
+  | M_Expand => Some R_CanCallExpand
+  | M_ReadChanges => Some R_CanCallReadChanges
+  end.
+
+(* const MaxModulesInRequest = 1 *)
+Definition max_modules_in_request : N := 1.
 
 Definition client := bytes.
 Definition store_id := bytes.
@@ -325,99 +426,6 @@ Definition spec_system_allowed (g : grant_oracle) (cl : claims) (m : api_method)
   end.
 
 (* ------------------------------------------------------------------------------------ *)
-(* The regenerated handler table: who authorizes before touching data                     *)
-
-Fixpoint find_handler (n : string) (hs : list c26_handler) : option c26_handler :=
-  match hs with
-  | [] => None
-  | h :: r => if String.eqb (h_name h) n then Some h else find_handler n r
-  end.
-
-(* [strict] = resolving the store's authorization model (s.resolveTypesystem, a datastore read
-   that also sets the model-id response header) counts as data access.
-   [authed] becomes true after a *guarded* authz call: a top-level statement whose error is
-   returned immediately.  A call of another RPC handler is not a data access of this handler;
-   the callee must itself pass ([self_ok]). *)
-Fixpoint calls_ok (strict : bool) (self_ok : string -> bool) (authed : bool)
-         (cs : list c26_call) : bool :=
-  match cs with
-  | [] => true
-  | c :: r =>
-    match c with
-    | CValidate => calls_ok strict self_ok authed r
-    | CAuthz _ _ g => calls_ok strict self_ok (authed || g) r
-    | CWriteAuthz g => calls_ok strict self_ok (authed || g) r
-    | CCreateStoreAuthz g => calls_ok strict self_ok (authed || g) r
-    | CAccessibleStores g => calls_ok strict self_ok (authed || g) r
-    | CResolveModel => (authed || negb strict) && calls_ok strict self_ok authed r
-    | CData _ => authed && calls_ok strict self_ok authed r
-    | CDelegate h _ => self_ok h && calls_ok strict self_ok authed r
-    | CUnknown _ => false
-    end
-  end.
-
-Fixpoint handler_ok (fuel : nat) (strict : bool) (n : string) : bool :=
-  match fuel with
-  | O => false
-  | S f =>
-    match find_handler n c26_handlers with
-    | None => false
-    | Some h => calls_ok strict (handler_ok f strict) false (h_calls h)
-    end
-  end.
-
-Definition handler_fuel : nat := S (List.length c26_handlers).
-
-(* authz call precedes every command / datastore call and every model resolution *)
-Definition authorizes_first (h : c26_handler) : bool := handler_ok handler_fuel true (h_name h).
-(* authz call precedes every command / datastore call (model resolution may come first) *)
-Definition authorizes_before_commands (h : c26_handler) : bool := handler_ok handler_fuel false (h_name h).
-
-(* trigger: the handler (or a handler it calls) resolves the model before it authorizes *)
-Definition tr_model_read_before_authz (h : c26_handler) : bool :=
-  authorizes_before_commands h && negb (authorizes_first h).
-
-(* every checkAuthz call of handler H names apimethod.H and the request's own store id *)
-Definition checks_own_method (h : c26_handler) : bool :=
-  forallb (fun c => match c with
-                    | CAuthz m st _ => String.eqb m (h_name h) && String.eqb st "req.GetStoreId()"
-                    | _ => true
-                    end) (h_calls h).
-
-Definition is_authz_call (c : c26_call) : bool :=
-  match c with
-  | CAuthz _ _ _ | CWriteAuthz _ | CCreateStoreAuthz _ | CAccessibleStores _ => true
-  | _ => false
-  end.
-
-Definition delegates_of (h : c26_handler) : list string :=
-  flat_map (fun c => match c with CDelegate n _ => [n] | _ => [] end) (h_calls h).
-
-Definition touches_data (h : c26_handler) : bool :=
-  existsb (fun c => match c with CData _ | CResolveModel | CUnknown _ => true | _ => false end) (h_calls h).
-
-(* handlers with no authz call of their own *)
-Definition handlers_without_own_authz : list (string * list string * bool) :=
-  map (fun h => (h_name h, delegates_of h, touches_data h))
-      (filter (fun h => negb (existsb is_authz_call (h_calls h))) c26_handlers).
-
-(* hand-written review list: the AuthZEN front-ends call the core handlers; GetConfiguration
-   returns configuration only *)
-Definition spec_handlers_without_own_authz : list (string * list string * bool) :=
-  [("Evaluation", ["Check"], false);
-   ("Evaluations", ["Evaluation"; "Check"; "BatchCheck"], false);
-   ("SubjectSearch", ["ListUsers"], false);
-   ("ResourceSearch", ["StreamedListObjects"], false);
-   ("ActionSearch", ["BatchCheck"], true);
-   ("GetConfiguration", [], false)]%string.
-
-Definition spec_authz_helpers : list (string * bool * list string) :=
-  [("checkAuthz", true, ["Authorize"]);
-   ("checkCreateStoreAuthz", true, ["AuthorizeCreateStore"]);
-   ("getAccessibleStores", true, ["AuthorizeListStores"; "ListAuthorizedStores"]);
-   ("checkWriteAuthz", true, ["GetModulesForWriteRequest"; "->checkAuthz"])]%string.
-
-(* ------------------------------------------------------------------------------------ *)
 (* Lookups by the byte strings that the Go driver writes                                  *)
 
 Fixpoint find_by_bytes {A} (name : A -> list N) (b : bytes) (l : list A) : option A :=
@@ -431,33 +439,43 @@ Definition method_of_bytes (b : bytes) : option api_method :=
 Definition relation_of_bytes (b : bytes) : option relation :=
   find_by_bytes relation_bytes b all_relations.
 
-Fixpoint bytes_of_string (s : string) : bytes :=
-  match s with
-  | EmptyString => []
-  | String a r => N_of_ascii a :: bytes_of_string r
-  end.
+(* ------------------------------------------------------------------------------------ *)
+(* Pinned facts about the RPC handlers of pkg/server (names as bytes).  Hand-written; proved  *)
+(* equal to what the regenerated handler table says (AuthzProofs.pinned_handlers_match_source) *)
 
-(* per handler: (name, (store-scoped, (model read before authz, authorizes first))).  The table is
-   stored in computed form so that the extracted oracle does not depend on Coq strings;
-   AuthzProofs.handler_flags_computed proves it equal to its definition. *)
-Definition handler_flags_def : list (bytes * (bool * (bool * bool))) :=
-  map (fun h => (bytes_of_string (h_name h),
-                 (h_store_scoped h, (tr_model_read_before_authz h, authorizes_first h))))
-      c26_handlers.
-Definition handler_flags : list (bytes * (bool * (bool * bool))) :=
-  Eval vm_compute in handler_flags_def.
+Definition hname (l : list N) : bytes := l.
 
-Fixpoint find_flags (n : bytes) (l : list (bytes * (bool * (bool * bool)))) : option (bool * (bool * bool)) :=
-  match l with
-  | [] => None
-  | (k, v) :: r => if beqb k n then Some v else find_flags n r
-  end.
+(* handlers whose request names a store (req.GetStoreId()) *)
+Definition spec_store_scoped_handlers : list bytes :=
+  [ [87; 114; 105; 116; 101; 65; 115; 115; 101; 114; 116; 105; 111; 110; 115];
+    [82; 101; 97; 100; 65; 115; 115; 101; 114; 116; 105; 111; 110; 115];
+    [82; 101; 97; 100; 65; 117; 116; 104; 111; 114; 105; 122; 97; 116; 105; 111; 110; 77; 111; 100; 101; 108];
+    [87; 114; 105; 116; 101; 65; 117; 116; 104; 111; 114; 105; 122; 97; 116; 105; 111; 110; 77; 111; 100; 101; 108];
+    [82; 101; 97; 100; 65; 117; 116; 104; 111; 114; 105; 122; 97; 116; 105; 111; 110; 77; 111; 100; 101; 108; 115];
+    [69; 118; 97; 108; 117; 97; 116; 105; 111; 110];
+    [69; 118; 97; 108; 117; 97; 116; 105; 111; 110; 115];
+    [83; 117; 98; 106; 101; 99; 116; 83; 101; 97; 114; 99; 104];
+    [82; 101; 115; 111; 117; 114; 99; 101; 83; 101; 97; 114; 99; 104];
+    [65; 99; 116; 105; 111; 110; 83; 101; 97; 114; 99; 104];
+    [71; 101; 116; 67; 111; 110; 102; 105; 103; 117; 114; 97; 116; 105; 111; 110];
+    [66; 97; 116; 99; 104; 67; 104; 101; 99; 107];
+    [67; 104; 101; 99; 107];
+    [69; 120; 112; 97; 110; 100];
+    [76; 105; 115; 116; 79; 98; 106; 101; 99; 116; 115];
+    [83; 116; 114; 101; 97; 109; 101; 100; 76; 105; 115; 116; 79; 98; 106; 101; 99; 116; 115];
+    [76; 105; 115; 116; 85; 115; 101; 114; 115];
+    [82; 101; 97; 100];
+    [82; 101; 97; 100; 67; 104; 97; 110; 103; 101; 115];
+    [68; 101; 108; 101; 116; 101; 83; 116; 111; 114; 101];
+    [71; 101; 116; 83; 116; 111; 114; 101];
+    [87; 114; 105; 116; 101] ].
 
-Definition handler_known_b (n : bytes) : bool :=
-  match find_flags n handler_flags with Some _ => true | None => false end.
-Definition handler_store_scoped_b (n : bytes) : bool :=
-  match find_flags n handler_flags with Some (a, _) => a | None => false end.
-Definition handler_model_read_before_authz_b (n : bytes) : bool :=
-  match find_flags n handler_flags with Some (_, (b, _)) => b | None => false end.
-Definition handler_authorizes_first_b (n : bytes) : bool :=
-  match find_flags n handler_flags with Some (_, (_, c)) => c | None => false end.
+(* the only handlers that resolve the store's authorization model before they authorize
+   (known finding model_read_before_authz): ActionSearch, Write.  Any other handler doing so is
+   a property violation. *)
+Definition spec_model_first_handlers : list bytes :=
+  [ [65; 99; 116; 105; 111; 110; 83; 101; 97; 114; 99; 104]; [87; 114; 105; 116; 101] ].
+
+Definition handler_store_scoped_b (n : bytes) : bool := bmem n spec_store_scoped_handlers.
+Definition handler_known_b (n : bytes) : bool := bmem n spec_store_scoped_handlers.
+Definition handler_model_read_before_authz_b (n : bytes) : bool := bmem n spec_model_first_handlers.
